@@ -41,6 +41,7 @@ FAULT_SITES = {
     "fmcs": ["cancel", "raise"],
     "fmces": ["empty", "raise"],
     "par_task": ["raise"],  # a worker task of the k-th Parallel call fails (explicit faults only)
+    "model": ["raise"],  # the scoring model's predict_proba fails at its k-th call (explicit faults only)
 }
 
 
